@@ -51,8 +51,18 @@ def run(ctx):
         rc, out = sh([explorer, ops], env=env, timeout=3000)
     ctx.log(out.strip().split("\n")[-1] if out.strip() else "explorer silent")
     if rc != 0:
-        ctx.oblige("run:explorer", False, out[-800:])
-        return ctx.finish()
+        crash = ops + ".crash"
+        if os.path.exists(crash):
+            # the REAL code (generator table + runtime, in-process) crashed on a concrete input: that input is the finding
+            f = open(crash, errors="replace").read().split(" ", 3)
+            sig, cid, src, string = (f + ["?", "?", "?", "?"])[:4]
+            ctx.violation("judge", "the real parser crashed (%s) while parsing this input with the freshly generated parser" % sig,
+                          {"case": cid, "spec": "%s %s" % (src, string.strip()), "result": {"signal": sig}},
+                          fingerprint={"clause": "real-parser-crashes", "kind": src.split(":")[0]}, found_input=True)
+            # the ops file holds everything up to the last grammar header: judge that part too
+        else:
+            ctx.oblige("run:explorer", False, out[-800:])
+            return ctx.finish()
     # grammar sources and token strings (for replay specs)
     gsrc, gkind, case_str = {}, {}, {}
     gid = None
@@ -114,6 +124,10 @@ def run(ctx):
                     viol.append((0, "judge", "a production of the generated table of %s is not an instance of the source rule of its left-hand side: %s" % (g, kv.get("badprod")),
                                  {"case": g, "spec": "%s t:" % gsrc.get(g, "?"), "result": kv},
                                  {"clause": "table-production-not-in-grammar", "kind": kv["kind"]}, True))
+            if kv.get("aliasrows", "ok").startswith("FAIL"):
+                viol.append((0, "judge", "a reduce action of the generated table of %s has more children than a row of ts_alias_sequences is long (max_alias_sequence_length): the runtime reads the next production's aliases: %s" % (g, kv["aliasrows"]),
+                             {"case": g, "spec": "%s t:" % gsrc.get(g, "?"), "result": kv},
+                             {"clause": "reduce-longer-than-alias-row", "kind": kv["kind"]}, True))
             rt = kv.get("rawtie", "na")
             if rt == "ok":
                 gram["rawtie_ok"] = gram.get("rawtie_ok", 0) + 1
